@@ -2,6 +2,7 @@
 //! sequential code of nuts-rs). One sub-command per property id.
 
 mod common;
+mod c05;
 mod c06;
 mod c16;
 mod c17;
@@ -39,6 +40,7 @@ fn main() {
     }
     // A panic that escapes a check is a machinery error, never a verdict.
     let res = std::panic::catch_unwind(|| match id.as_str() {
+        "C05" => c05::run_check(tier, replay),
         "C06" => c06::run(tier, replay),
         "C16" => c16::run(tier, replay),
         "C17" => c17::run(tier, replay),
